@@ -563,9 +563,11 @@ read_file(econf_file *ef, const char *file,
 	      *pt = '\0';
 	  }
 	}
-	/* removing \n at the end of the line */
-	if( org_buf[strlen(org_buf)-1] == '\n' )
-	  org_buf[strlen(org_buf)-1] = 0;
+	/* removing \n at the end of the line (nothing may be left of the
+	   line if a white space is one of the comment characters) */
+	size_t org_len = strlen(org_buf);
+	if (org_len > 0 && org_buf[org_len-1] == '\n')
+	  org_buf[org_len-1] = 0;
 	retval = store(ef, current_group, name, org_buf, line,
 		       current_comment_before_key, current_comment_after_value,
 		       false, /* Quotes does not matter in the following lines */
